@@ -25,6 +25,17 @@ Sources and recognised shapes (anything else raises Untranslatable -> tie broken
      scope_vars = sorted(scope_vars, key=lambda v: (v in <set>, v)), nouts = len(a) - len(b),
      return a, b, c.
    * _create_loop_options: compared (alpha-normalised) with the canonical shape.
+ malt/converters/variables.py  (syntactic, ast)
+   * VariableAccessTransformer.visit_Delete(self, node):
+        node = self.generic_visit(node)
+        if not any|all(isinstance(T, ast.Name) for T in node.targets): return node
+        R = []
+        for T in node.targets:
+          if isinstance(T, ast.Name): template = <str>; R.extend(templates.replace(template, P=T, Q=ast.Constant(T.id)))
+          else: R.append(ast.Delete(targets=[T]))
+        return R
+     template statements: `ag__.ld(P)` / `P = ag__.Undefined(Q)` / `del P`  -> delete_rule_gen (the generated
+     getters read simple names directly: they stay total only if no name is ever unbound).
  malt/converters/conditional_expressions.py, logical_expressions.py: the call templates of
      if_exp / and_ / or_ / not_ (arguments `p` or `lambda: p`).
  malt/operators/control_flow.py, conditional_expressions.py, logical.py
@@ -800,6 +811,103 @@ def _docs(repo, sigs):
 
 # ------------------------------------------------------------------------------ main
 
+VARS_PY = 'malt/converters/variables.py'
+
+
+def _delete_rule(repo):
+    """VariableAccessTransformer.visit_Delete -> Gallina delete_rule"""
+    fn = VARS_PY
+    tree = ast.parse(open(os.path.join(repo, fn)).read())
+    cls = _find_class(tree, 'VariableAccessTransformer', fn)
+    m = _find_method(cls, 'visit_Delete', fn)
+    if [a.arg for a in m.args.args] != ['self', 'node'] or m.args.vararg or m.args.kwarg or m.decorator_list:
+        _fail(fn, m, 'visit_Delete signature')
+    body = _nodoc(m.body)
+    if len(body) != 5:
+        _fail(fn, m, 'visit_Delete: expected 5 statements (generic_visit, guard, accumulator, loop, return)')
+    st = body[0]
+    if not (isinstance(st, ast.Assign) and len(st.targets) == 1 and _name(st.targets[0]) == 'node'
+            and ast.unparse(st.value) == 'self.generic_visit(node)'):
+        _fail(fn, st, 'visit_Delete: first statement is not `node = self.generic_visit(node)`')
+    # guard: if not any|all(isinstance(T, ast.Name) for T in node.targets): return node
+    g = body[1]
+    ok = (isinstance(g, ast.If) and not g.orelse and isinstance(g.test, ast.UnaryOp) and isinstance(g.test.op, ast.Not)
+          and isinstance(g.test.operand, ast.Call) and _name(g.test.operand.func) in ('any', 'all')
+          and len(g.test.operand.args) == 1 and not g.test.operand.keywords
+          and isinstance(g.test.operand.args[0], ast.GeneratorExp))
+    if not ok:
+        _fail(fn, g, 'visit_Delete: guard is not `if not any|all(<generator>): ...`')
+    ge = g.test.operand.args[0]
+    if not (len(ge.generators) == 1 and not ge.generators[0].ifs and not ge.generators[0].is_async
+            and isinstance(ge.generators[0].target, ast.Name) and ast.unparse(ge.generators[0].iter) == 'node.targets'
+            and ast.unparse(ge.elt) == 'isinstance(%s, ast.Name)' % ge.generators[0].target.id):
+        _fail(fn, g, 'visit_Delete: guard does not quantify `isinstance(T, ast.Name)` over node.targets')
+    gb = _nodoc(g.body)
+    if not (len(gb) == 1 and isinstance(gb[0], ast.Return) and _name(gb[0].value) == 'node'):
+        _fail(fn, g, 'visit_Delete: guarded statement is not `return node`')
+    quant = 'QAny' if g.test.operand.func.id == 'any' else 'QAll'
+    # accumulator, loop, return
+    acc = body[2]
+    if not (isinstance(acc, ast.Assign) and len(acc.targets) == 1 and isinstance(acc.targets[0], ast.Name)
+            and isinstance(acc.value, ast.List) and not acc.value.elts):
+        _fail(fn, acc, 'visit_Delete: accumulator initialisation')
+    R = acc.targets[0].id
+    ret = body[4]
+    if not (isinstance(ret, ast.Return) and _name(ret.value) == R):
+        _fail(fn, ret, 'visit_Delete: does not return the accumulated statements')
+    loop = body[3]
+    if not (isinstance(loop, ast.For) and not loop.orelse and isinstance(loop.target, ast.Name)
+            and ast.unparse(loop.iter) == 'node.targets' and len(loop.body) == 1 and isinstance(loop.body[0], ast.If)):
+        _fail(fn, loop, 'visit_Delete: loop over node.targets with one if/else')
+    T = loop.target.id
+    br = loop.body[0]
+    if ast.unparse(br.test) != 'isinstance(%s, ast.Name)' % T or not br.orelse:
+        _fail(fn, br, 'visit_Delete: per-target test is not `isinstance(T, ast.Name)` with an else branch')
+
+    def emitted(stmts, at):
+        """statements of one branch -> list of del_action"""
+        tpl = None
+        out = []
+        for st in stmts:
+            if (isinstance(st, ast.Assign) and len(st.targets) == 1 and isinstance(st.targets[0], ast.Name)
+                    and isinstance(st.value, ast.Constant) and isinstance(st.value.value, str)):
+                tpl = (st.targets[0].id, st.value.value)
+                continue
+            if not (isinstance(st, ast.Expr) and isinstance(st.value, ast.Call) and isinstance(st.value.func, ast.Attribute)
+                    and _name(st.value.func.value) == R and len(st.value.args) == 1 and not st.value.keywords):
+                _fail(fn, st, 'visit_Delete: statement is neither a template string nor %s.extend/append(...)' % R)
+            how, arg = st.value.func.attr, st.value.args[0]
+            if how == 'append' and ast.unparse(arg) == 'ast.Delete(targets=[%s])' % T:
+                out.append('DADelete')
+            elif how == 'extend' and _is_call_to(arg, 'templates.replace') and len(arg.args) == 1:
+                if not (tpl and _name(arg.args[0]) == tpl[0]):
+                    _fail(fn, st, 'visit_Delete: template of templates.replace is not the string bound just before')
+                kws = {}
+                for kw in arg.keywords:
+                    if kw.arg is None:
+                        _fail(fn, st, '**kwargs in templates.replace')
+                    kws[kw.arg] = ast.unparse(kw.value)
+                var = [k for k, v in kws.items() if v == T]
+                nam = [k for k, v in kws.items() if v == 'ast.Constant(%s.id)' % T]
+                if len(kws) != len(var) + len(nam) or len(var) != 1 or len(nam) > 1:
+                    _fail(fn, st, 'visit_Delete: placeholders must be bound to the target and to ast.Constant(<target>.id)')
+                for ts in _parse_template(tpl[1], fn, st):
+                    txt = ast.unparse(ts)
+                    if txt == 'ag__.ld(%s)' % var[0]:
+                        out.append('DARead')
+                    elif nam and txt == '%s = ag__.Undefined(%s)' % (var[0], nam[0]):
+                        out.append('DABindUndefined')
+                    elif txt == 'del %s' % var[0]:
+                        out.append('DADelete')
+                    else:
+                        _fail(fn, st, 'visit_Delete: unrecognised template statement `%s`' % txt)
+            else:
+                _fail(fn, st, 'visit_Delete: unrecognised emission `%s`' % ast.unparse(st)[:80])
+        return out
+    return '{| dr_rewritten_when := %s; dr_name := %s; dr_other := %s |}' % (
+        quant, clist(emitted(br.body, br)), clist(emitted(br.orelse, br)))
+
+
 def translate(repo):
     path = os.path.join(repo, CF)
     tree = ast.parse(open(path).read())
@@ -816,9 +924,10 @@ def translate(repo):
     for modname, opname in OPS:
         calls += _op_calls(repo, modname, opname)
     doc_params, doc_arity = _docs(repo, sigs)
+    dr = _delete_rule(repo)
     L = []
-    L.append('(* GENERATED by tools/translate/c03_contract.py from malt/converters/control_flow.py, conditional_expressions.py,')
-    L.append('   logical_expressions.py, malt/operators/{control_flow,conditional_expressions,logical}.py and')
+    L.append('(* GENERATED by tools/translate/c03_contract.py from malt/converters/control_flow.py, variables.py,')
+    L.append('   conditional_expressions.py, logical_expressions.py, malt/operators/{control_flow,conditional_expressions,logical}.py and')
     L.append('   g3doc/reference/operators.md -- do not edit *)')
     L.append('From Coq Require Import List String.')
     L.append('Import ListNotations.')
@@ -852,6 +961,9 @@ def translate(repo):
     L.append('(* (operator, parameter, arity of the callable in the documented example) *)')
     L.append('Definition doc_arity_gen : list (string * string * nat) :=\n  %s.'
              % clist(['(%s, %s, %d)' % (cs(o), cs(p), n) for o, p, n in doc_arity]))
+    L.append('')
+    L.append('(* VariableAccessTransformer.visit_Delete *)')
+    L.append('Definition delete_rule_gen : delete_rule :=\n  %s.' % dr)
     L.append('')
     L.append('Definition contract_gen : contract :=')
     L.append('  {| c_state := state_fns_gen; c_if := visit_if_gen; c_while := visit_while_gen; c_for := visit_for_gen;')
